@@ -24,7 +24,20 @@ def exec_X18(t):
     vs = [int(v) for v in parse_list(t[5])]
     v = vs[0] if len(vs) == 1 else (list(vs) if len(vs) % 2 else tuple(vs))      # several integers travel as a list / tuple
     try:
-        if route == 'rawset' and len(vs) > 1:
+        if len(vs) > 1 and (n + len(vs) + vs[0]) % 3 == 0 and route in ('rawset', 'rawctor', 'intval'):
+            # (content-determined) one of the python integers travels next to a NumPy integer in the same list: the python integers
+            # are python integers all the same
+            k_ = next((i for i, c in enumerate(vs) if -2 ** 63 <= c < 2 ** 63), None)
+            if k_ is not None:
+                v = [np.int64(c) if i == k_ else c for i, c in enumerate(vs)]
+        if route == 'rawset' and len(vs) > 1 and (n + vs[-1]) % 2:
+            # the codes are stored one by one into the elements of an existing wide object
+            x = Fxp(np.zeros(len(vs), dtype=int), s, n, f, overflow=o)
+            for i_, c_ in enumerate(vs):
+                x.set_val(c_, raw=True, index=i_)
+            if any(isinstance(e_, np.ndarray) for e_ in (x.val.flatten() if x.val.dtype == object else [])):
+                return ['NESTED_ELEMENT']
+        elif route == 'rawset' and len(vs) > 1:
             x = Fxp(np.zeros(len(vs), dtype=int), s, n, f, overflow=o); x.set_val(v, raw=True)
         elif route == 'rawctor':
             x = Fxp(v, s, n, f, raw=True, overflow=o)
